@@ -599,6 +599,19 @@ def run(prog: Program, res: Result, tier: str) -> None:
                     ("int(" in want) == ("int(" in norm(pe))
             except Exception:  # noqa: BLE001
                 ok = False
+        if not ok and pe is None and m is not None:
+            # a property written with statements (early return for a conditional expression): the same values under the same conditions
+            from ..normalform import canon as _cn10, cond as _cond10, normal_form as _nf10
+            w_ = ast.parse(want, mode="eval").body
+            if isinstance(w_, ast.IfExp):
+                exp_ = {(_cn10(w_.body), (" ".join(_cond10(norm(w_.test))),)), (_cn10(w_.orelse), (" ".join(_cond10(f"not ({norm(w_.test)})")),))}
+            else:
+                exp_ = {(_cn10(w_), ())}
+            try:
+                got_ = {(e_.text(), tuple(sorted(e_.ctx))) for e_ in _nf10(m).returns()}
+                ok = got_ == exp_
+            except Exception:  # noqa: BLE001
+                ok = False
         (res.ok if ok else res.bad)("R10", m, m.node if m else cls_.node, f"{cls_.name}.{name}: {what}" if ok else
                                     f"{cls_.name}.{name} is `{norm(pe) if pe is not None else '?'}`, expected `{want}` ({what}): every byte offset and buffer size of "
                                     f"the plan is in these units", construct=f"{cls_.name}.{name}", key=f"unit:{cls_.name}.{name}")
